@@ -822,7 +822,7 @@ def part_spec(variables, tag=""):
 
 
 def check_part_header(run, tree, only_read_vs_skip=False):
-    variables = {"p1": (True, "d"), "p2": (False, "i"), "p3": (True, "b"), "p4": (False, "d"), "p5": (True, "i")}
+    variables = {"p0": (False, "d"), "p1": (True, "d"), "p2": (False, "i"), "p3": (True, "b"), "p4": (False, "d"), "p5": (True, "i")}
     m = tree.method(tree.cls(PART), "read_header")
     run.analysed(m)
     construct = PART + ".read_header"
